@@ -559,4 +559,26 @@ def interruptedBuiltin (t : TrapMap) (batches : List (List Nat)) : TrapMap × Bo
   let r := sigintLoop batches []
   (r.1.foldl catchSignal t, r.2)
 
+/-! ## The frame walk of `in_trap` (`yash-semantics/src/trap/signal.rs`, `yash-env/src/stack.rs`) -/
+
+/-- `stack::Frame` (the payload of `Builtin` is dropped; `Trap` carries the condition: 0 = EXIT) -/
+inductive Frame where
+  | loop | subshell | condition | builtin | dotScript | trap (cond : Nat) | initFile
+  deriving DecidableEq, Repr
+
+/-- `matches!(*frame, Frame::Trap(Condition::Signal(_)))` -/
+def Frame.isSignalTrap : Frame → Bool
+  | .trap c => c != 0
+  | _ => false
+
+/-- `in_trap`: `env.stack.iter().rev().take_while(|frame| **frame != Frame::Subshell)
+    .any(|frame| matches!(*frame, Frame::Trap(Condition::Signal(_))))`; the stack is a `Vec` whose last
+    element is the innermost frame -/
+def inTrap (stack : List Frame) : Bool :=
+  (stack.reverse.takeWhile (· != Frame.subshell)).any Frame.isSignalTrap
+
+/-- `run_traps_for_caught_signals` (after the poll) on a given execution stack -/
+def runTrapsOnStack (body : Body) (stack : List Frame) (t : TrapMap) (exit : Int) : RunResult :=
+  runTrapsForCaughtSignals body (inTrap stack) t exit
+
 end YashModel.Trap
